@@ -103,9 +103,9 @@ def reset (s : Sess) : Sess :=
 
 def commandNames : List Bytes :=
   ["HELO", "EHLO", "MAIL", "RCPT", "DATA", "RSET", "SEND", "SOML", "SAML", "VRFY", "EXPN", "HELP",
-   "NOOP", "QUIT", "TURN", "STARTTLS", "AUTH"].map Bytes.ofString
+   "NOOP", "QUIT", "TURN", "STARTTLS", "AUTH"].map Bytes.ofAscii
 
-def notImplemented : List Bytes := ["SEND", "SOML", "SAML", "EXPN", "HELP", "TURN"].map Bytes.ofString
+def notImplemented : List Bytes := ["SEND", "SOML", "SAML", "EXPN", "HELP", "TURN"].map Bytes.ofAscii
 
 def trimSpaces (b : Bytes) : Bytes := ((b.dropWhile (· == 32)).reverse.dropWhile (· == 32)).reverse
 
@@ -124,7 +124,7 @@ inductive Parsed
   | empty                       -- l == 0: "500 Speak up"
   | garbled                     -- l < 4
   | cmd (name arg : Bytes)
-  deriving Repr
+  deriving Repr, DecidableEq
 
 def parseCmd (line : Bytes) : Parsed :=
   let t := Line.trimRightCRLF line
@@ -154,7 +154,7 @@ def parseInt32 (s : Bytes) : Option Int :=
 
 /-- args["SIZE"]: keys are upper-cased, a later pair overrides an earlier one -/
 def sizeArg (pairs : List (Bytes × Bytes)) : Bytes :=
-  match (pairs.reverse.find? (fun p => upper p.1 == Bytes.ofString "SIZE")) with
+  match (pairs.reverse.find? (fun p => upper p.1 == Bytes.ofAscii "SIZE")) with
   | some p => p.2
   | none => []
 
@@ -192,7 +192,7 @@ def mailFrom (e : Env) (s : Sess) (arg : Bytes) (acc : List Ev) : Sess × List E
           else say { s1 with st := .mail } 250 acc
 
 def rcptTo (e : Env) (s : Sess) (arg : Bytes) (acc : List Ev) : Sess × List Ev :=
-  if arg.length < 4 || upper (arg.take 3) != Bytes.ofString "TO:" then say s 501 acc
+  if arg.length < 4 || upper (arg.take 3) != Bytes.ofAscii "TO:" then say s 501 acc
   else
     let addr := trimCut (fun c => c == 60 || c == 62 || c == 32) (arg.drop 3)
     match Addr.newRecipient e.ip e.naming addr with
@@ -217,38 +217,38 @@ def splitN3 (arg : Bytes) : Nat × Bytes :=
 def handleCmd (e : Env) (s : Sess) (name arg : Bytes) (acc : List Ev) : Sess × List Ev :=
   if !commandNames.contains name then say s 500 acc
   else if notImplemented.contains name then say s 502 acc
-  else if name == Bytes.ofString "VRFY" then say s 252 acc
-  else if name == Bytes.ofString "NOOP" then say s 250 acc
-  else if name == Bytes.ofString "RSET" then say (reset s) 250 acc
-  else if name == Bytes.ofString "QUIT" then
+  else if name == Bytes.ofAscii "VRFY" then say s 252 acc
+  else if name == Bytes.ofAscii "NOOP" then say s 250 acc
+  else if name == Bytes.ofAscii "RSET" then say (reset s) 250 acc
+  else if name == Bytes.ofAscii "QUIT" then
     let (s1, acc1) := say s 221 acc
     ({ s1 with st := .quit }, acc1)
   else match s.st with
     | .greet =>
-      if name == Bytes.ofString "HELO" then
+      if name == Bytes.ofAscii "HELO" then
         if arg.isEmpty then say s 501 acc
         else say { s with st := .ready, remoteDomain := arg.takeWhile (· != 32) } 250 acc
-      else if name == Bytes.ofString "EHLO" then
+      else if name == Bytes.ofAscii "EHLO" then
         if arg.isEmpty then say s 501 acc
         else ({ send s 4 with st := .ready, remoteDomain := arg.takeWhile (· != 32) }, .reply [250, 250, 250, 250] :: acc)
       else say s 503 acc
     | .ready =>
-      if name == Bytes.ofString "STARTTLS" then say s 454 acc
-      else if name == Bytes.ofString "AUTH" then
+      if name == Bytes.ofAscii "STARTTLS" then say s 454 acc
+      else if name == Bytes.ofAscii "AUTH" then
         let (n, method) := splitN3 arg
-        if method == Bytes.ofString "PLAIN" then (if n != 2 then say s 500 acc else say s 235 acc)
-        else if method == Bytes.ofString "LOGIN" then say { s with st := .login } 334 acc
+        if method == Bytes.ofAscii "PLAIN" then (if n != 2 then say s 500 acc else say s 235 acc)
+        else if method == Bytes.ofAscii "LOGIN" then say { s with st := .login } 334 acc
         else say s 500 acc
-      else if name == Bytes.ofString "MAIL" then mailFrom e s arg acc
-      else if name == Bytes.ofString "EHLO" then say (reset s) 250 acc
+      else if name == Bytes.ofAscii "MAIL" then mailFrom e s arg acc
+      else if name == Bytes.ofAscii "EHLO" then say (reset s) 250 acc
       else say s 503 acc
     | .mail =>
-      if name == Bytes.ofString "RCPT" then rcptTo e s arg acc
-      else if name == Bytes.ofString "DATA" then
+      if name == Bytes.ofAscii "RCPT" then rcptTo e s arg acc
+      else if name == Bytes.ofAscii "DATA" then
         if !arg.isEmpty then say s 501 acc
         else if s.rcpts.isEmpty then say s 503 acc
         else ({ s with st := .data }, acc)
-      else if name == Bytes.ofString "EHLO" then say (reset s) 250 acc
+      else if name == Bytes.ofAscii "EHLO" then say (reset s) 250 acc
       else say s 503 acc
     | _ => (s, acc)        -- LOGIN / PASSWORD / DATA / QUIT never reach the command handlers
 
@@ -267,9 +267,9 @@ def crlf : Bytes := [13, 10]
 /-- the two trace lines Deliver puts before the data -/
 def traceHeaders (e : Env) (s : Sess) (mb : Bytes) : Bytes :=
   let sender := match s.sender with | some o => o.addr | none => []
-  Bytes.ofString "Return-Path: <" ++ sender ++ Bytes.ofString ">" ++ crlf ++
-  Bytes.ofString "Received: from " ++ s.remoteDomain ++ Bytes.ofString " ([" ++ e.remoteHost ++ Bytes.ofString "]) by " ++
-  e.domain ++ crlf ++ Bytes.ofString "  for <" ++ mb ++ Bytes.ofString ">; " ++ e.tstamp ++ crlf
+  Bytes.ofAscii "Return-Path: <" ++ sender ++ Bytes.ofAscii ">" ++ crlf ++
+  Bytes.ofAscii "Received: from " ++ s.remoteDomain ++ Bytes.ofAscii " ([" ++ e.remoteHost ++ Bytes.ofAscii "]) by " ++
+  e.domain ++ crlf ++ Bytes.ofAscii "  for <" ++ mb ++ Bytes.ofAscii ">; " ++ e.tstamp ++ crlf
 
 /-- the AddMessage loop of Deliver: stops at the first failing mailbox -/
 def storeLoop (e : Env) (s : Sess) (ib : Inbound) (date : Int) (data : Bytes) : List Bytes → List Ev → Bool × List Ev
